@@ -87,6 +87,11 @@ type knownEntry struct {
 
 var verifDir = "/verif"
 
+// outDir receives evidence, shard files and new replay files: verifDir, except for development
+// runs against a scratch worktree (VERIF_REPO), which must never overwrite the evidence of /repo
+var outDir = ""
+
+
 func die2(f string, a ...any) {
 	fmt.Printf("INCONCLUSIVE: "+f+"\n", a...)
 	os.Exit(2)
@@ -101,6 +106,12 @@ func goEnv() []string {
 func main() {
 	if d := os.Getenv("VERIF_DIR"); d != "" {
 		verifDir = d
+	}
+	outDir = verifDir
+	if o := os.Getenv("VERIF_OUT"); o != "" {
+		outDir = o
+	} else if alt := os.Getenv("VERIF_REPO"); alt != "" && alt != "/repo" {
+		outDir = filepath.Join(os.TempDir(), fmt.Sprintf("verif-out-%x", fnv64(alt)))
 	}
 	args := os.Args[1:]
 	if len(args) == 0 {
@@ -273,13 +284,13 @@ func main() {
 			jobs = append(jobs, job{leg, tc, s, b})
 		}
 	}
-	shardDir := filepath.Join(verifDir, "evidence", ".shards")
+	shardDir := filepath.Join(outDir, "evidence", ".shards")
 	os.MkdirAll(shardDir, 0o755)
 	old, _ := filepath.Glob(filepath.Join(shardDir, id+"-*.json"))
 	for _, f := range old {
 		os.Remove(f)
 	}
-	os.MkdirAll(filepath.Join(verifDir, "replay"), 0o755)
+	os.MkdirAll(filepath.Join(outDir, "replay"), 0o755)
 
 	par := 16
 	if p := os.Getenv("VERIF_PAR"); p != "" {
@@ -311,7 +322,7 @@ func main() {
 			cmd.Dir = filepath.Join(verifDir, "checks", strings.ToLower(id))
 			cmd.Env = append(goEnv(), "VERIF_EV_OUT="+evOut, "VERIF_TIER="+tier, "VERIF_SEED="+strconv.FormatInt(seed, 10),
 				fmt.Sprintf("VERIF_SHARD=%d", j.shard), fmt.Sprintf("VERIF_SHARDS=%d", j.tc.Shards), fmt.Sprintf("VERIF_CASES=%d", j.tc.Checks),
-				"VERIF_REPLAY_OUT="+filepath.Join(verifDir, "replay"), "VERIF_REPLAY=")
+				"VERIF_REPLAY_OUT="+filepath.Join(outDir, "replay"), "VERIF_REPLAY=")
 			cmd.Env = append(cmd.Env, j.leg.Env...)
 			if j.leg.DeathIsViolation {
 				cmd.Env = append(cmd.Env, "VERIF_TRACK_CASE=1")
@@ -326,7 +337,7 @@ func main() {
 			defer mu.Unlock()
 			if err != nil && j.leg.DeathIsViolation && ctx.Err() == nil && !strings.Contains(out.String(), "VIOLATION-FOUND ") && !strings.Contains(out.String(), "test timed out") && !strings.Contains(out.String(), "--- FAIL") {
 				if cur, rerr := os.ReadFile(evOut + ".cur"); rerr == nil {
-					dst := filepath.Join(verifDir, "replay", fmt.Sprintf("%s-%s-died-%x.json", id, j.leg.Name, fnv64(string(cur))))
+					dst := filepath.Join(outDir, "replay", fmt.Sprintf("%s-%s-died-%x.json", id, j.leg.Name, fnv64(string(cur))))
 					os.WriteFile(dst, cur, 0o644)
 					logp := filepath.Join(shardDir, fmt.Sprintf("%s-%s-%d.log", id, j.leg.Name, j.shard))
 					os.WriteFile(logp, out.Bytes(), 0o644)
@@ -527,9 +538,9 @@ func main() {
 		"wall_s":      time.Since(start).Seconds(),
 		"violations":  len(violations),
 	}
-	os.MkdirAll(filepath.Join(verifDir, "evidence"), 0o755)
+	os.MkdirAll(filepath.Join(outDir, "evidence"), 0o755)
 	b, _ := json.MarshalIndent(ev, "", " ")
-	os.WriteFile(filepath.Join(verifDir, "evidence", id+".json"), append(b, '\n'), 0o644)
+	os.WriteFile(filepath.Join(outDir, "evidence", id+".json"), append(b, '\n'), 0o644)
 
 	fmt.Printf("%s tier=%s seed=%d evaluations=%d distinct_nontrivial=%d legs=%d wall=%.1fs\n", id, tier, seed, totalEval, totalDistinct, len(merged), time.Since(start).Seconds())
 	if len(violations) > 0 {
